@@ -165,7 +165,11 @@ def run(ctx):
         b = {"id": f"c12-{i}-B", "config": cfg, "models": [w], "ops": bops, "exprs": exprs}
         scs += [a, b]
         meta.append((cuts, idx, store))
-    results = ctx.harness("run", scs)
+    # in batches: an engine that is dropped does not give all its file handles back (reference cycles between the runtime and its handlers),
+    # so a harness process is not asked to run thousands of restarts
+    results = []
+    for lo in range(0, len(scs), 240):
+        results += ctx.harness("run", scs[lo:lo + 240], tag="h%d" % (lo // 240))
     stats = {"pairs": n, "cuts": 0, "evictions": 0, "restarts": 0, "messages_after_cut": 0, "finished_both": 0}
     for k, (cuts, idx, store) in enumerate(meta):
         a, b = scs[2 * k], scs[2 * k + 1]
